@@ -5,6 +5,7 @@ import (
 	"encoding/binary"
 	"encoding/hex"
 	"fmt"
+	"github.com/scionproto/scion/private/drkey/drkeyutil"
 	"math/rand/v2"
 	"net"
 	"net/netip"
@@ -38,6 +39,11 @@ type fz struct {
 	// panicOnly: run C09's structured error-provoking generator but judge only
 	// what C08 states (no panic, emitted packets consistent).
 	panicOnly bool
+	// acrossEpoch: after an authenticated SCMP error was judged, wait for the
+	// next DRKey epoch and provoke the same error with the same packet again on
+	// the same router (drk is the provider matching the router's epoch length).
+	acrossEpoch bool
+	drk         *drkeyutil.FakeProvider
 }
 
 func (f *fz) star() int { return f.rng.IntN(len(f.stars)) }
